@@ -590,7 +590,9 @@ class Scen:
             with open(path, "wb") as fp:          # not md.dump: the code under test must not prepare its own inputs
                 fp.write(text.encode("utf-8"))
             self.harvest(tr["file"])
-            tr["tamper"] = how if how == "resigned" else None
+            # a foreign signature put in FRONT of the original one: still verifiable with a key argument, but the
+            # gpg default branch takes the key id of the first signature — the record was altered, either outcome is fine
+            tr["tamper"] = how if (how == "resigned" or ev["key"][0] == "gpg") else None
         elif how == "dup":
             # a second preliminary record of the same step under another key-id prefix
             d, b = os.path.split(path)
